@@ -243,7 +243,7 @@ def generate(repo, outdir, cache, groups=None, force=False):
                     tu = tus[key]
                     if spec['kind'] == 'translate':
                         txt, bad = tu.translate(spec['names'], mem=spec.get('mem', False), explicit_in=spec.get('explicit_in', ()),
-                                                namespace=spec.get('namespace', 'Gen'), log_errors=spec.get('log_errors', False), imports=spec.get('imports', ('MiVerif.Gen.Prelude',)),
+                                                namespace=spec.get('namespace', 'Gen'), log_errors=spec.get('log_errors', False), imports=spec.get('imports', ('MiVerif.Gen.Prelude',)), strict=spec.get('strict', True),
                                                 header=HEADER)
                     elif spec['kind'] == 'custom':
                         txt = globals()[spec['fn']](tu, spec)
